@@ -146,6 +146,7 @@ func tBAMRaw(stream []byte) string {
 		w, _ := bam.NewWriter(discard{}, hd, 1)
 		idx := &bam.Index{}
 		n := 0
+		var kept []*sam.Record
 		for n < 2000 {
 			rec, err := r.Read()
 			if err != nil {
@@ -153,6 +154,13 @@ func tBAMRaw(stream []byte) string {
 			}
 			n++
 			exerciseRecord(rec, hd, w, idx, r.LastChunk())
+			if len(kept) < 40 {
+				kept = append(kept, rec)
+			}
+		}
+		// a record stays usable after the reader has moved on
+		for _, rec := range kept {
+			exerciseRecord(rec, hd, nil, nil, bgzf.Chunk{})
 		}
 		if n > 0 {
 			note = fmt.Sprintf("%d records", n)
@@ -501,6 +509,15 @@ func buildSeeds() {
 		lines = append(lines, sb.SpecSAMLine(a, specs, 0))
 	}
 	seeds["bam_payload"] = [][]byte{payload, sb.SpecBAMHeader(nil, nil)}
+	// two records larger than the reader's 4 KiB inline buffer, each with several aux fields
+	{
+		long := sb.SpecBAMHeader([]byte("@SQ\tSN:c\tLN:1000\n"), []sb.RefSpec{{Name: "c", Len: 1000}})
+		for i := 0; i < 2; i++ {
+			long = append(long, sb.SpecBAMRecord(sb.ARec{Name: fmt.Sprintf("long%d", i), Ref: 0, Mate: -1, Pos: 3 + i, MPos: -1, MapQ: 1, SeqLen: 2, SeqSeed: 5, Cigar: []sb.COp{{T: 0, L: 2}},
+				Aux: []sb.AAux{{Tag: "z0", Ty: 'Z', ZN: 4300 + 100*i}, {Tag: "z1", Ty: 'i', I: -70000}, {Tag: "z2", Ty: 'B', Sub: 's', BI: []int64{-3, 4, 5}}, {Tag: "z3", Ty: 'C', I: 7}}})...)
+		}
+		seeds["bam_payload"] = append(seeds["bam_payload"], long)
+	}
 	// small inputs: one record with one aux field each, so that a mutation of a
 	// length or count field is likely to be the only damage
 	oneRef := []sb.RefSpec{{Name: "c", Len: 1000}}
